@@ -81,6 +81,9 @@ type c07Cfg struct {
 	Workers    int  `json:"workers"`
 	MaxBuffer  int  `json:"max_buffer_rows"`
 	RotateEach bool `json:"wal_rotate_each_entry"`
+	// FlushTimeoutS is ingest.flush_timeout_seconds; 0 = out of reach (3600). Histories that
+	// use the "hang" fault run with the smallest real value (1 s) and contain no hold actions.
+	FlushTimeoutS int `json:"flush_timeout_s,omitempty"`
 }
 
 // c07Action kinds: write hold release fail heal rotate age tick flush restart
@@ -90,7 +93,7 @@ type c07Action struct {
 	Meas  int    `json:"m,omitempty"`     // write: measurement index
 	Rows  int    `json:"rows,omitempty"`  // write: number of rows
 	Hours int    `json:"hours,omitempty"` // write: rows spread over this many hour partitions (1|2)
-	Mode  string `json:"mode,omitempty"`  // fail: "all" (until heal) | "next" (next N writes fail) | "after" (N more writes succeed, then all fail)
+	Mode  string `json:"mode,omitempty"`  // fail: "all" (until heal) | "next" (next N writes fail) | "after" (N more writes succeed, then all fail) | "hang" (next N async writes block until the flush context ends and return ctx.Err())
 	N     int    `json:"n,omitempty"`
 	Old   int    `json:"old,omitempty"` // age: the Old oldest WAL files become older than safeAge, all others middle-aged (>MinFileAge, <safeAge); -1 = the leading files without unprotected rows
 }
@@ -108,6 +111,7 @@ type c07Result struct {
 	Blocked   string   `json:"blocked_by_known_finding,omitempty"`
 	Skipped   []string `json:"skipped_actions,omitempty"`
 	FlushFail int      `json:"failed_flushes"`
+	Deadline  int      `json:"flushes_ended_by_deadline"`
 	QueueFull int      `json:"queue_full_drops"`
 	Purged    int      `json:"purged_files"`
 	Replayed  int      `json:"replayed_files"`
@@ -133,6 +137,8 @@ type c07Backend struct {
 	failAll    bool
 	failNext   int
 	okThenFail int // >0: that many more successful writes, then failAll
+	hangNext   int // next N async (worker) writes block until their context ends
+	nDeadline  int
 	stored     map[int64]int
 	nFail      int
 	nOK        int
@@ -153,6 +159,13 @@ func c07CallerIsFlushWorker() bool {
 			return false
 		}
 	}
+}
+
+// hangWait models an object store that does not answer: the request ends only when
+// its context does (flush timeout or Close) and returns the context error.
+func (f *c07Backend) hangWait(ctx context.Context) error {
+	<-ctx.Done()
+	return ctx.Err()
 }
 
 // gateWait blocks an async flush worker while the gate is closed. Like a slow
@@ -189,6 +202,19 @@ func (f *c07Backend) Write(ctx context.Context, path string, data []byte) error 
 			f.mu.Unlock()
 			return err
 		}
+	}
+	if worker && f.hangNext > 0 {
+		f.hangNext--
+		f.mu.Unlock()
+		err := f.hangWait(ctx)
+		f.mu.Lock()
+		f.nFail++
+		if errors.Is(err, context.DeadlineExceeded) {
+			f.nDeadline++
+		}
+		f.trace("storage.Write %s ids=%v -> hung until the flush context ended (%v)", path, ids, err)
+		f.mu.Unlock()
+		return err
 	}
 	fail := false
 	switch {
@@ -240,14 +266,14 @@ func (f *c07Backend) setHold(on bool) {
 
 func (f *c07Backend) heal() {
 	f.mu.Lock()
-	f.failAll, f.failNext, f.okThenFail = false, 0, 0
+	f.failAll, f.failNext, f.okThenFail, f.hangNext = false, 0, 0, 0
 	f.mu.Unlock()
 }
 
 func (f *c07Backend) failing() bool {
 	f.mu.Lock()
 	defer f.mu.Unlock()
-	return f.failAll || f.failNext > 0 || f.okThenFail > 0
+	return f.failAll || f.failNext > 0 || f.okThenFail > 0 || f.hangNext > 0
 }
 
 func (f *c07Backend) gatedIDs() []int64 {
@@ -468,6 +494,10 @@ func newC07World(tb c07Fataler, cfg c07Cfg, guards bool) *c07World {
 		tb.Fatalf("HARNESS local backend: %v", err)
 	}
 	w.backend = &c07Backend{Backend: local, gated: map[int][]int64{}, stored: map[int64]int{}, trace: w.tracef}
+	flushTimeout := 3600 // out of reach
+	if cfg.FlushTimeoutS > 0 {
+		flushTimeout = cfg.FlushTimeoutS
+	}
 	c := &config.Config{}
 	c.Ingest = config.IngestConfig{
 		MaxBufferSize:       cfg.MaxBuffer,
@@ -479,7 +509,7 @@ func newC07World(tb c07Fataler, cfg c07Cfg, guards bool) *c07World {
 		FlushQueueSize:      cfg.QueueSize,
 		ShardCount:          4,
 		DefaultSortKeys:     "time",
-		FlushTimeoutSeconds: 3600,
+		FlushTimeoutSeconds: flushTimeout,
 	}
 	c.WAL = config.WALConfig{
 		Enabled:                 cfg.WAL,
@@ -568,10 +598,13 @@ func (w *c07World) settle() {
 		if time.Now().After(deadline) {
 			w.tb.Fatalf("HARNESS settle timeout: goroutines %+v (want %d workers, %d wal loop)", g, wantWorkers, wantWal)
 		}
-		if spin < 400 {
+		switch {
+		case spin < 400:
 			runtime.Gosched()
-		} else {
+		case spin < 2000:
 			time.Sleep(100 * time.Microsecond)
+		default: // a flush worker is waiting out its (real, 1 s) flush timeout in hangWait
+			time.Sleep(2 * time.Millisecond)
 		}
 	}
 }
@@ -816,6 +849,8 @@ func (w *c07World) doFail(a c07Action) {
 		w.backend.failNext = a.N
 	case "after":
 		w.backend.okThenFail = a.N
+	case "hang":
+		w.backend.hangNext = a.N
 	default:
 		w.backend.failAll = true
 	}
@@ -1120,6 +1155,7 @@ func c07Run(tb c07Fataler, h c07History, guards bool) c07Result {
 	w.terminal()
 	w.res.Acked = len(w.acked)
 	w.res.FlushFail = w.backend.nFail
+	w.res.Deadline = w.backend.nDeadline
 	w.res.QueueFull = w.logw.queueFull
 	w.res.Purged = w.logw.purgedFiles
 	w.res.Replayed = w.logw.replayedFiles
@@ -1157,6 +1193,21 @@ func c07GenHistory(t *rapid.T) c07History {
 	h.Cfg.RotateEach = rapid.IntRange(0, 5).Draw(t, "rotateEach") != 0 // 1 entry per WAL file (payload >= max size) vs one big file
 	kinds := []string{"write", "write", "write", "write", "write", "write", "write", "write", "hold", "release", "fail", "fail", "fail", "fail", "heal",
 		"rotate", "rotate", "age", "age", "tick", "tick", "tick", "flush", "restart", "recover", "recover", "recover"}
+	hangs := 0
+	if h.Cfg.WAL && rapid.IntRange(0, 5).Draw(t, "timeoutHistory") == 0 {
+		// storage that hangs until ingest.flush_timeout_seconds expires. The timeout is real
+		// (1 s, the smallest configurable), so these histories have no hold actions (a parked
+		// worker would race the wall clock) and at most one hang.
+		h.Cfg.FlushTimeoutS = 1
+		hangs = 1
+		var k2 []string
+		for _, k := range kinds {
+			if k != "hold" && k != "release" {
+				k2 = append(k2, k)
+			}
+		}
+		kinds = k2
+	}
 	if !h.Cfg.WAL {
 		kinds = []string{"write", "write", "write", "write", "write", "hold", "release", "fail", "heal", "flush", "restart"}
 	}
@@ -1174,7 +1225,10 @@ func c07GenHistory(t *rapid.T) c07History {
 			}
 		case "fail":
 			a.Mode = rapid.SampledFrom([]string{"all", "all", "all", "next", "next", "after"}).Draw(t, "mode")
-			if a.Mode != "all" {
+			if hangs > 0 && rapid.IntRange(0, 1).Draw(t, "hang") == 0 {
+				hangs--
+				a.Mode, a.N = "hang", 1
+			} else if a.Mode != "all" {
 				a.N = rapid.IntRange(1, 2).Draw(t, "n")
 			}
 		case "age":
@@ -1220,6 +1274,12 @@ func c07Account(h c07History, r c07Result) {
 	}
 	if r.FlushFail > 0 {
 		verifkit.Class("failed-flush")
+	}
+	if h.Cfg.FlushTimeoutS > 0 {
+		verifkit.Class("timeout-history")
+	}
+	if r.Deadline > 0 {
+		verifkit.Class("flush-ended-by-deadline")
 	}
 	if r.QueueFull > 0 {
 		verifkit.Class("queue-full-drop")
@@ -1333,6 +1393,16 @@ func TestVerifC07_CleanReplayPath(t *testing.T) {
 		}
 		c07Report(t, h, r)
 	}
+	// a storage write that hangs until ingest.flush_timeout_seconds expires is a failed flush
+	// like any other: flagged, replayed by the next tick, stored exactly once
+	ht := c07H(true, true, c07Action{Kind: "fail", Mode: "hang", N: 1}, c07W("mp", 2, 1), c07Rotate, c07AgeMid, c07Tick)
+	ht.Cfg.FlushTimeoutS = 1
+	rt := c07Run(t, ht, false)
+	verifkit.Eval()
+	if rt.Deadline != 1 {
+		t.Fatalf("HARNESS hang history did not end a flush by deadline: %+v", rt)
+	}
+	c07Report(t, ht, rt)
 	// and a purge of a fully flushed old file loses nothing
 	h := c07H(true, true, c07W("mp", 2, 1), c07AgeOld, c07Tick, c07FailAll, c07W("lp", 2, 1), c07Heal, c07Rotate, c07AgeMid, c07Tick)
 	r := c07Run(t, h, false)
